@@ -252,6 +252,8 @@ class Exec:
         m = re.match(r"^const (-?\d+)_(\w+)$", op)
         if m:
             return bv(int(m.group(1)), m.group(2))
+        if op.startswith("const ZeroSized"):
+            return Obj({})
         if op == "const true":
             return z3.BoolVal(True)
         if op == "const false":
@@ -381,6 +383,32 @@ class Exec:
             for i in range(n):
                 sink.trace.append(z3.Extract(8 * i + 7, 8 * i, v))
             return None
+        m = re.match(r"^core::num::<impl (\w+)>::checked_(add|sub)$", callee)
+        if m:
+            x, y = a[0], a[1]
+            w = x.size()
+            if m.group(2) == "add":
+                ovf = z3.Extract(w, w, z3.ZeroExt(1, x) + z3.ZeroExt(1, y)) == 1
+                return Obj({"some": z3.Not(ovf), "val": x + y})
+            return Obj({"some": z3.UGE(x, y), "val": x - y})
+        m = re.match(r"^Option::<(\w+)>::and_then::<.*\{closure@([^ }]+)", callee)
+        if m:
+            opt = a[0]
+            key = "closure@" + m.group(2).rstrip(":")
+            key = key.split(" ")[0]
+            cands = [f for f in self.fns if "{closure#" in f.name and any(key.split(": ")[0] in t for _k, t in f.params)]
+            if len(cands) != 1:
+                raise Unsupported("and_then closure lookup (%d candidates)" % len(cands))
+            sub = Exec(self.fns, self.consts)
+            paths = sub.run(cands[0], [Obj({}), opt.f["val"]])
+            rets = [p for p in paths if p["panic"] is None]
+            if len(paths) != 1 or len(rets) != 1 or rets[0]["cond"]:
+                raise Unsupported("and_then closure is not straight-line")
+            res = rets[0]["ret"]
+            return Obj({"some": z3.And(opt.f["some"], res.f["some"]), "val": res.f["val"]})
+        m = re.match(r"^Option::<(\w+)>::unwrap$", callee)
+        if m:
+            return ("unwrap", a[0])
         m = re.match(r"^Option::<(\w+)>::unwrap_or$", callee)
         if m:
             opt = a[0]
@@ -479,10 +507,23 @@ class Exec:
                 if z3.is_false(ok):
                     return
                 return self._exec(fn, frame, m.group(4), cond + ([] if z3.is_true(ok) else [ok]), depth, on_return, visiting)
+            if re.match(r"^.+? = (?:core::panicking::)?(?:panic|panic_fmt|assert_failed)\w*(?:::<[^>]*>)?\(.*\) -> .*;$", st):
+                mm = re.search(r'const "(.*?)"', st)
+                self.done.append({"cond": cond, "ret": None, "panic": mm.group(1) if mm else "panic", "frame": frame})
+                return
             m = re.match(r"^(.+?) = (.+?)\((.*)\) -> \[return: (bb\d+).*\];$", st)
             if m and not re.match(r"^(Add|Sub|Mul|BitAnd|BitOr|BitXor|Shl|Shr|Lt|Le|Gt|Ge|Eq|Ne|Not|\w+WithOverflow)$", m.group(2).strip()):
                 dst, callee, argstr, nxt = m.group(1).strip(), m.group(2).strip(), m.group(3), m.group(4)
                 r = self.call(fn, frame, callee, split_top(argstr), None, depth)
+                if isinstance(r, tuple) and r and r[0] == "unwrap":
+                    opt = r[1]
+                    some = z3.simplify(opt.f["some"])
+                    if not z3.is_true(some):
+                        self.done.append({"cond": cond + [z3.Not(some)], "ret": None, "panic": "called `Option::unwrap()` on a `None` value", "frame": frame})
+                    if z3.is_false(some):
+                        return
+                    self.write_place(frame, dst, opt.f["val"])
+                    return self._exec(fn, frame, nxt, cond + ([] if z3.is_true(some) else [some]), depth, on_return, visiting)
                 if isinstance(r, tuple) and r and r[0] == "inline":
                     _tag, target, a = r
                     fr2 = {k: v for (k, _t), v in zip(target.params, a)}
@@ -787,6 +828,34 @@ fn replay() {
 }
 """
 
+def drive_c18_pkglen(rep, profile, ex):
+    """create_pkg_length must not RETURN for a length whose total is >= 2^28 (both profiles)"""
+    fn = ex.find(lambda f: f.name.endswith("create_pkg_length"))
+    ln = z3.BitVec("len", 64)
+    inc = z3.Bool("include_self")
+    paths = ex.run(fn, [ln, inc])
+    out_of_domain = z3.If(inc, z3.UGE(ln, (1 << 28) - 4), z3.UGE(ln, 1 << 28))
+    n = 0
+    for i, p in enumerate(paths):
+        if p["panic"] is not None:
+            continue
+        tr = p["ret"].items
+        val, fmt = dec_pkglen(tr)
+        wrong = val != z3.If(inc, ln + len(tr), ln)
+        t0 = time.time()
+        r, model, s = decide(p["cond"] + [out_of_domain, wrong])
+        n += 1
+        name = "C18/%s/create_pkg_length returns a PkgLength that does not decode to the length given (len >= 2^28)/path%d" % (profile, i)
+        if r == "sat":
+            rep.q(name, "sat", str(model), time.time() - t0)
+            rep.violations.append({"query": "C18/%s/create_pkg_length" % profile, "desc": "returns a wrong PkgLength instead of refusing: %s" % model, "profile": profile})
+        elif r == "unsat":
+            rep.q(name, "unsat", "", time.time() - t0)
+        else:
+            rep.broken.append(name + ": solver " + r)
+    return n
+
+
 NARROW = re.compile(r"^\s*(_\d+) = (?:move|copy) (\S+) as (u8|u16|u32) \(IntToInt\);")
 
 
@@ -831,6 +900,7 @@ def run(prop, tier, seed, what):
                 drive_c17(rep, profile, ex)
             elif prop == "C18":
                 drive_c18_ranges(rep, profile, ex)
+                drive_c18_pkglen(rep, profile, ex)
                 if profile == "release":
                     out["narrowing_cast_census"] = census(fns)
         except Unsupported as e:
